@@ -194,24 +194,38 @@ Section ParseProofs.
   Lemma wf_subs c : wf d c -> Forall (wf d) (c_subs c).
   Proof. intros [hl bl k subs _ _ H]. exact H. Qed.
 
-  Lemma get_subpart_wf : forall p c s, wf d c -> get_subpart c p = Some s -> wf d s.
+  Lemma next_container_wf s : wf d s -> wf d (next_container s).
   Proof.
-    induction p as [|i rest IH]; intros c s Hwf H; cbn [get_subpart] in H.
-    - injection H as <-. exact Hwf.
-    - destruct (c_subs c) as [|s0 subs'] eqn:Es.
-      + destruct (Nat.eqb i 1); [|discriminate]. eapply IH; eauto.
-      + destruct i as [|j]; [discriminate|].
-        destruct (nth_error (s0 :: subs') j) as [s1|] eqn:En; [|discriminate].
-        eapply IH; [|exact H].
-        assert (HF := wf_subs c Hwf). rewrite Es in HF.
-        rewrite Forall_forall in HF. apply HF. eapply nth_error_In; eauto.
+    intro H. unfold next_container.
+    destruct (is_rfc822 s && has_nested s); [|exact H].
+    assert (HF := wf_subs s H). destruct (c_subs s) as [|e r]; [exact H|].
+    inversion HF; assumption.
   Qed.
+
+  Lemma walk_wf : forall p cont cur s,
+    wf d cont -> wf d cur -> walk cont cur p = Some s -> wf d s.
+  Proof.
+    induction p as [|i rest IH]; intros cont cur s Hc Hu H; cbn [walk] in H.
+    - injection H as <-. exact Hu.
+    - destruct (has_nested cont && negb (is_rfc822 cont)).
+      + destruct i as [|j]; [discriminate|].
+        destruct (nth_error (c_subs cont) j) as [s1|] eqn:En; [|discriminate].
+        assert (Hs1 : wf d s1).
+        { assert (HF := wf_subs cont Hc). rewrite Forall_forall in HF.
+          apply HF. eapply nth_error_In; eauto. }
+        eapply IH; [apply next_container_wf; exact Hs1|exact Hs1|exact H].
+      + destruct (Nat.eqb i 1); [|discriminate].
+        eapply IH; [apply next_container_wf; exact Hc|exact Hc|exact H].
+  Qed.
+
+  Lemma get_subpart_wf p c s : wf d c -> get_subpart c p = Some s -> wf d s.
+  Proof. intros H. unfold get_subpart. apply walk_wf; assumption. Qed.
 
   (* the octet count _get_body_structure computes for a node *)
   Definition node_announced (s : content) : option nat :=
-    match c_kind s with
-    | CtMulti _ => None
-    | _ => Some (length (raw_of d s))
+    match c_kind s, c_subs s with
+    | CtMulti _, _ :: _ => None
+    | _, _ => Some (length (raw_of d s))
     end.
 
   (* announced octets of the node a section reaches =
@@ -224,7 +238,8 @@ Section ParseProofs.
     destruct p as [|i rest]; [congruence|].
     unfold node_announced in Hn.
     assert (Hws := get_subpart_wf _ _ _ Hwf Hs).
-    assert (n = length (raw_of d s)) as -> by (destruct (c_kind s); congruence).
+    assert (n = length (raw_of d s)) as ->
+      by (destruct (c_kind s); destruct (c_subs s); congruence).
     rewrite (wf_raw_split s Hws), app_length. reflexivity.
   Qed.
 End ParseProofs.
@@ -305,147 +320,114 @@ Section Structure.
       rewrite Nat.add_succ_r. auto.
   Qed.
 
-  (* no message/rfc822 node anywhere *)
-  Inductive no_rfc822 : content -> Prop :=
-  | no_rfc822_node hl bl k subs :
-      k <> CtRfc822 -> Forall no_rfc822 subs -> no_rfc822 (Node hl bl k subs).
+  (* RFC 3501 numbering of the announced structure leads _get_subpart to the
+     node whose size was announced.
+     [node_ok s]: the parts listed for the structure of the node s, reached
+     by the numbers q, are reached from s by the remaining numbers;
+     [msg_ok e]: the parts of the message e (numbers starting with q) are
+     reached with e as the container, whatever part was reached before. *)
+  Definition node_ok (s : content) : Prop :=
+    forall q b p n, body_structure d s = Some b -> In (p, n) (rfc_part q b) ->
+    exists p' t, p = q ++ p' /\ walk (next_container s) s p' = Some t
+                 /\ n = length (raw_of d t).
 
-  (* In a tree without message/rfc822, the RFC 3501 number of every announced
-     part leads _get_subpart to the node whose size was announced *)
-  Lemma rfc_part_sound : forall c,
-    wf d c -> no_rfc822 c -> forall q b p n,
-    body_structure d c = Some b -> In (p, n) (rfc_part q b) ->
-    exists p' s, p = q ++ p' /\ get_subpart c p' = Some s
-                 /\ n = length (raw_of d s)
-                 /\ (p' = [] -> s = c /\ c_subs c = []).
+  Definition msg_ok (e : content) : Prop :=
+    forall q b p n cur, body_structure d e = Some b -> In (p, n) (msg_parts q b) ->
+    exists p' t, p = q ++ p' /\ p' <> [] /\ walk e cur p' = Some t
+                 /\ n = length (raw_of d t).
+
+  Lemma rfc_sound : forall c, wf d c -> node_ok c /\ msg_ok c.
   Proof.
     induction c as [hl bl k subs IH] using content_ind'.
-    intros Hwf Hno q b p n Hb Hin.
+    intros Hwf.
     inversion Hwf as [? ? ? ? Hrange Hshape Hsubs]; subst.
-    inversion Hno as [? ? ? ? Hk Hnos]; subst.
-    cbn [body_structure] in Hb. fold (bs_go) in Hb.
+    assert (IH' : forall s, In s subs -> node_ok s /\ msg_ok s).
+    { intros s Hs. rewrite Forall_forall in IH, Hsubs. apply IH; auto. }
+    assert (Hnode : node_ok (Node hl bl k subs)).
+    { intros q b p n Hb Hin. cbn [body_structure] in Hb. fold bs_go in Hb.
+      destruct k as [| |bnd|].
+      - injection Hb as <-. destruct Hin as [Hin|[]]. injection Hin as <- <-.
+        exists [], (Node hl bl CtText subs). rewrite app_nil_r. repeat split.
+      - injection Hb as <-. destruct Hin as [Hin|[]]. injection Hin as <- <-.
+        exists [], (Node hl bl CtOther subs). rewrite app_nil_r. repeat split.
+      - destruct subs as [|s0 subs'].
+        + injection Hb as <-. destruct Hin as [Hin|[]]. injection Hin as <- <-.
+          exists [], (Node hl bl (CtMulti bnd) []). rewrite app_nil_r. repeat split.
+        + destruct (bs_go (s0 :: subs')) as [bs|] eqn:Eg; [|discriminate].
+          cbn [option_map] in Hb. injection Hb as <-.
+          cbn [rfc_part] in Hin. fold (rfc_children q) in Hin.
+          apply rfc_children_in in Hin as (j & bj & Hnb & Hin).
+          destruct (bs_go_nth _ _ _ _ Eg Hnb) as (s & Hns & Hbs).
+          assert (Hs_in : In s (s0 :: subs')) by (eapply nth_error_In; eauto).
+          destruct (proj1 (IH' s Hs_in) _ _ _ _ Hbs Hin) as (p' & t & Hp & Hw & Hn).
+          exists ((1 + j) :: p'), t. repeat split.
+          * rewrite Hp, <- app_assoc. reflexivity.
+          * cbn [walk next_container is_rfc822 has_nested c_kind c_subs andb negb Nat.add].
+            rewrite Hns. exact Hw.
+          * exact Hn.
+      - cbn [shape_ok] in Hshape. destruct Hshape as (e & ->).
+        destruct (body_structure d e) as [be|] eqn:Ee; [|discriminate].
+        cbn [option_map] in Hb. injection Hb as <-.
+        cbn [rfc_part] in Hin. fold (msg_parts q be) in Hin.
+        destruct Hin as [Hin|Hin].
+        + injection Hin as <- <-.
+          exists [], (Node hl bl CtRfc822 [e]). rewrite app_nil_r. repeat split.
+        + destruct (proj2 (IH' e (or_introl eq_refl)) _ _ _ _ (Node hl bl CtRfc822 [e]) Ee Hin)
+            as (p' & t & Hp & _ & Hw & Hn).
+          exists p', t. repeat split; auto. }
+    split; [exact Hnode|].
+    intros q b p n cur Hb Hin.
+    assert (Hb' := Hb). cbn [body_structure] in Hb. fold bs_go in Hb.
+    assert (Hleaf : has_nested (Node hl bl k subs) && negb (is_rfc822 (Node hl bl k subs)) = false ->
+                    (forall x, b <> BsMulti x) ->
+                    exists p' t, p = q ++ p' /\ p' <> [] /\ walk (Node hl bl k subs) cur p' = Some t
+                                 /\ n = length (raw_of d t)).
+    { intros Hcond Hnm.
+      assert (Hin' : In (p, n) (rfc_part (q ++ [1]) b)).
+      { unfold msg_parts in Hin. destruct b; try exact Hin. exfalso. eapply Hnm. reflexivity. }
+      destruct (Hnode _ _ _ _ Hb' Hin') as (p' & t & Hp & Hw & Hn).
+      exists (1 :: p'), t. repeat split.
+      - rewrite Hp, <- app_assoc. reflexivity.
+      - discriminate.
+      - cbn [walk]. rewrite Hcond. cbn [Nat.eqb]. exact Hw.
+      - exact Hn. }
     destruct k as [| |bnd|].
-    - injection Hb as <-. cbn [rfc_part] in Hin. destruct Hin as [Hin|[]].
-      injection Hin as <- <-. cbn [shape_ok] in Hshape. subst subs.
-      exists [], (Node hl bl CtText []). rewrite app_nil_r. repeat split; reflexivity.
-    - injection Hb as <-. cbn [rfc_part] in Hin. destruct Hin as [Hin|[]].
-      injection Hin as <- <-. cbn [shape_ok] in Hshape. subst subs.
-      exists [], (Node hl bl CtOther []). rewrite app_nil_r. repeat split; reflexivity.
-    - destruct (bs_go subs) as [bs|] eqn:Eg; [|discriminate]. cbn [option_map] in Hb.
-      injection Hb as <-. cbn [rfc_part] in Hin. fold (rfc_children q) in Hin.
-      apply rfc_children_in in Hin as (j & b & Hnb & Hin).
-      destruct (bs_go_nth _ _ _ _ Eg Hnb) as (s & Hns & Hbs).
-      assert (Hs_in : In s subs) by (eapply nth_error_In; eauto).
-      rewrite Forall_forall in IH, Hsubs, Hnos.
-      destruct (IH s Hs_in (Hsubs s Hs_in) (Hnos s Hs_in) _ _ _ _ Hbs Hin)
-        as (p' & s' & Hp & Hg & Hn & _).
-      exists ((1 + j) :: p'), s'. repeat split.
-      + rewrite Hp, <- app_assoc. reflexivity.
-      + cbn [get_subpart c_subs]. destruct subs as [|s0 subs']; [destruct Hs_in|].
-        cbn [Nat.add]. rewrite Hns. exact Hg.
-      + exact Hn.
-      + discriminate.
-      + discriminate.
-    - congruence.
+    - cbn [shape_ok] in Hshape. subst subs.
+      apply Hleaf; [reflexivity|]. injection Hb as <-. discriminate.
+    - cbn [shape_ok] in Hshape. subst subs.
+      apply Hleaf; [reflexivity|]. injection Hb as <-. discriminate.
+    - destruct subs as [|s0 subs'].
+      + apply Hleaf; [reflexivity|]. injection Hb as <-. discriminate.
+      + destruct (bs_go (s0 :: subs')) as [bs|] eqn:Eg; [|discriminate].
+        cbn [option_map] in Hb. injection Hb as <-.
+        cbn [msg_parts rfc_part] in Hin. fold (rfc_children q) in Hin.
+        apply rfc_children_in in Hin as (j & bj & Hnb & Hin).
+        destruct (bs_go_nth _ _ _ _ Eg Hnb) as (s & Hns & Hbs).
+        assert (Hs_in : In s (s0 :: subs')) by (eapply nth_error_In; eauto).
+        destruct (proj1 (IH' s Hs_in) _ _ _ _ Hbs Hin) as (p' & t & Hp & Hw & Hn).
+        exists ((1 + j) :: p'), t. repeat split.
+        * rewrite Hp, <- app_assoc. reflexivity.
+        * discriminate.
+        * cbn [walk is_rfc822 has_nested c_kind c_subs andb negb Nat.add].
+          rewrite Hns. exact Hw.
+        * exact Hn.
+    - cbn [shape_ok] in Hshape. destruct Hshape as (e & ->).
+      apply Hleaf; [reflexivity|].
+      destruct (body_structure d e); [|discriminate]. injection Hb as <-. discriminate.
   Qed.
 
-  Lemma get_subpart_leaf_1 c : c_subs c = [] -> get_subpart c [1] = Some c.
-  Proof. intro H. cbn [get_subpart]. rewrite H. reflexivity. Qed.
-
-  (* RFC-numbered form of the octet clause, for trees without message/rfc822 *)
+  (* the octet clause in RFC numbering, on every tree, to any depth *)
   Lemma part_octets_rfc c b p n :
-    wf d c -> no_rfc822 c -> body_structure d c = Some b ->
-    In (p, n) (rfc_parts b) ->
+    wf d c -> body_structure d c = Some b -> In (p, n) (rfc_parts b) ->
     n = length (fetch_mime d c p) + length (fetch_body d c p).
   Proof.
-    intros Hwf Hno Hb Hin. unfold rfc_parts in Hin.
-    assert (Hgen : forall q, In (p, n) (rfc_part q b) ->
-              exists p' s, p = q ++ p' /\ get_subpart c p' = Some s
-                           /\ n = length (raw_of d s) /\ (p' = [] -> s = c /\ c_subs c = []))
-      by (intros q Hq; eapply rfc_part_sound; eauto).
-    assert (Hsplit : forall s, wf d s ->
-              length (raw_of d s) = length (header_of d s) + length (body_of d s)).
-    { intros s Hs. rewrite (wf_raw_split d s Hs), app_length. reflexivity. }
-    destruct b as [bs|sz ln sub|sz ln|sz].
-    - (* multipart root: parts are numbered from the root *)
-      destruct (Hgen [] Hin) as (p' & s & Hp & Hg & Hn & Hnil). cbn [app] in Hp. subst p'.
-      destruct p as [|i rest].
-      + (* the root itself is never listed *)
-        destruct (Hnil eq_refl) as (-> & Hsubs).
-        destruct c as [hl bl k subs]. cbn [body_structure] in Hb.
-        inversion Hwf as [? ? ? ? _ Hshape _]; subst. cbn [c_subs] in Hsubs. subst subs.
-        destruct k; cbn in Hb; try discriminate.
-        injection Hb as <-. destruct Hin.
-      + unfold fetch_mime, fetch_body. rewrite Hg. subst n.
-        apply Hsplit. eapply get_subpart_wf; eauto.
-    - (* message/rfc822 root: excluded *)
-      destruct c as [hl bl k subs]. inversion Hno as [? ? ? ? Hk _]; subst.
-      cbn [body_structure] in Hb. destruct k; try discriminate; try congruence.
-      + destruct ((fix go (l : list content) : option (list bstruct) :=
-                     match l with
-                     | [] => Some []
-                     | s :: r => match body_structure d s, go r with
-                                 | Some b, Some bs => Some (b :: bs)
-                                 | _, _ => None
-                                 end
-                     end) subs); discriminate.
-    - destruct (Hgen [1] Hin) as (p' & s & Hp & Hg & Hn & Hnil).
-      cbn [rfc_part] in Hin. destruct Hin as [Hin|[]]. injection Hin as <- _.
-      assert (p' = []) as -> by (destruct p'; [reflexivity|discriminate]).
-      destruct (Hnil eq_refl) as (-> & Hsubs).
-      unfold fetch_mime, fetch_body. rewrite (get_subpart_leaf_1 c Hsubs). subst n.
-      apply Hsplit. exact Hwf.
-    - destruct (Hgen [1] Hin) as (p' & s & Hp & Hg & Hn & Hnil).
-      cbn [rfc_part] in Hin. destruct Hin as [Hin|[]]. injection Hin as <- _.
-      assert (p' = []) as -> by (destruct p'; [reflexivity|discriminate]).
-      destruct (Hnil eq_refl) as (-> & Hsubs).
-      unfold fetch_mime, fetch_body. rewrite (get_subpart_leaf_1 c Hsubs). subst n.
-      apply Hsplit. exact Hwf.
-  Qed.
-  (* every multipart node has at least one parsed sub-part *)
-  Inductive no_empty_multi : content -> Prop :=
-  | nem_node hl bl k subs :
-      (forall b, k = CtMulti b -> subs <> []) -> Forall no_empty_multi subs ->
-      no_empty_multi (Node hl bl k subs).
-
-  Lemma bs_go_map : forall subs bs,
-    bs_go subs = Some bs ->
-    Forall (fun s => forall b, body_structure d s = Some b -> bs_printed b = b) subs ->
-    map bs_printed bs = bs /\ length bs = length subs.
-  Proof.
-    induction subs as [|s r IH]; intros bs H HF; cbn [bs_go] in H.
-    - injection H as <-. split; reflexivity.
-    - fold bs_go in H.
-      destruct (body_structure d s) as [b0|] eqn:Eb; [|discriminate].
-      destruct (bs_go r) as [bs0|] eqn:Er; [|discriminate].
-      injection H as <-. inversion HF as [|? ? Hs Hr]; subst.
-      destruct (IH _ eq_refl Hr) as (IH1 & IH2).
-      cbn [map length]. rewrite (Hs _ Eb), IH1, IH2. split; reflexivity.
-  Qed.
-
-  (* then nothing is added when the structure is printed *)
-  Lemma bs_printed_id : forall c,
-    wf d c -> no_empty_multi c -> forall b, body_structure d c = Some b -> bs_printed b = b.
-  Proof.
-    induction c as [hl bl k subs IH] using content_ind'.
-    intros Hwf Hne b Hb.
-    inversion Hwf as [? ? ? ? _ Hshape Hsubs]; subst.
-    inversion Hne as [? ? ? ? Hk Hnes]; subst.
-    cbn [body_structure] in Hb. fold (bs_go) in Hb.
-    assert (HF : Forall (fun s => forall b, body_structure d s = Some b -> bs_printed b = b) subs).
-    { rewrite Forall_forall in *. intros s Hs. apply IH; auto. }
-    destruct k as [| |bnd|].
-    - injection Hb as <-. reflexivity.
-    - injection Hb as <-. reflexivity.
-    - destruct (bs_go subs) as [bs|] eqn:Eg; [|discriminate]. cbn [option_map] in Hb.
-      injection Hb as <-. destruct (bs_go_map _ _ Eg HF) as (Hm & Hl).
-      destruct bs as [|b0 bs'].
-      + destruct subs; [exfalso; eapply Hk; reflexivity|discriminate].
-      + cbn [bs_printed]. fold (map bs_printed (b0 :: bs')). rewrite Hm. reflexivity.
-    - cbn [shape_ok] in Hshape. destruct Hshape as (s & ->).
-      destruct (body_structure d s) as [b'|] eqn:Es; [|discriminate].
-      cbn [option_map] in Hb. injection Hb as <-. cbn [bs_printed]. f_equal.
-      inversion HF as [|? ? Hs _]; subst. apply Hs. exact Es.
+    intros Hwf Hb Hin. unfold rfc_parts in Hin.
+    destruct (proj2 (rfc_sound c Hwf) [] b p n c Hb Hin) as (p' & t & Hp & Hne & Hw & Hn).
+    cbn [app] in Hp. subst p'.
+    unfold fetch_mime, fetch_body, get_subpart. rewrite Hw.
+    destruct p as [|i rest]; [congruence|]. subst n.
+    rewrite (wf_raw_split d t), app_length; [reflexivity|].
+    eapply walk_wf; [exact Hwf|exact Hwf|exact Hw].
   Qed.
 End Structure.
 
@@ -455,17 +437,17 @@ Lemma dict_copy_shares m u :
 Proof. split; reflexivity. Qed.
 
 Section MaildirProofs.
-  Variable ser : bytes -> bytes.
-  Hypothesis ser_id : forall x, ser x = x.
+  Variable rd : bytes -> bytes.
+  Hypothesis rd_id : forall x, rd x = x.
 
-  Lemma md_append_load lit : md_load ser (md_append ser lit) = lit.
-  Proof. unfold md_load, md_append. rewrite !ser_id. reflexivity. Qed.
+  Lemma md_append_load lit : md_load rd (md_append lit) = lit.
+  Proof. unfold md_load, md_append. apply rd_id. Qed.
 
-  Lemma md_copy_load lit : md_load ser (md_copy ser (md_append ser lit)) = lit.
-  Proof. unfold md_load, md_copy, md_append. rewrite !ser_id. reflexivity. Qed.
+  Lemma md_copy_load lit : md_load rd (md_copy rd (md_append lit)) = lit.
+  Proof. unfold md_load, md_copy, md_append. rewrite !rd_id. reflexivity. Qed.
 
-  Lemma md_move_load lit : md_load ser (md_move (md_append ser lit)) = lit.
-  Proof. unfold md_load, md_move, md_append. rewrite !ser_id. reflexivity. Qed.
+  Lemma md_move_load lit : md_load rd (md_move (md_append lit)) = lit.
+  Proof. unfold md_load, md_move, md_append. apply rd_id. Qed.
 End MaildirProofs.
 
 (* ------------------------------------------------------------------------ *)
@@ -499,22 +481,15 @@ Proof.
 Qed.
 
 Lemma st_part_octets d ct c b p n :
-  parse d ct = Ok c -> no_rfc822 c -> no_empty_multi c -> body_structure d c = Some b ->
-  In (p, n) (rfc_parts (bs_printed b)) ->
+  parse d ct = Ok c -> body_structure d c = Some b -> In (p, n) (rfc_parts b) ->
   n = length (fetch_mime d c p) + length (fetch_body d c p).
-Proof.
-  intros H Hno Hne Hb Hin. assert (Hwf := parse_wf d ct c H).
-  rewrite (bs_printed_id d c Hwf Hne b Hb) in Hin.
-  eapply part_octets_rfc; eauto.
-Qed.
+Proof. intros H. apply part_octets_rfc. eapply parse_wf; eauto. Qed.
 
 Lemma st_part_octets_no_header d ct c b p n :
-  parse d ct = Ok c -> no_rfc822 c -> no_empty_multi c -> body_structure d c = Some b ->
-  In (p, n) (rfc_parts (bs_printed b)) -> fetch_mime d c p = [] ->
-  n = length (fetch_body d c p).
+  parse d ct = Ok c -> body_structure d c = Some b -> In (p, n) (rfc_parts b) ->
+  fetch_mime d c p = [] -> n = length (fetch_body d c p).
 Proof.
-  intros H Hno Hne Hb Hin Hm.
-  rewrite (st_part_octets d ct c b p n H Hno Hne Hb Hin), Hm. reflexivity.
+  intros H Hb Hin Hm. rewrite (st_part_octets d ct c b p n H Hb Hin), Hm. reflexivity.
 Qed.
 
 Lemma st_part_octets_walk d ct c p s n :
@@ -528,38 +503,73 @@ Definition wit_hdr : bytes := [97; 58; 98; 10; 10; 99]%N.
 
 Lemma st_part_octets_refuted :
   exists d ct c b p n,
-    parse d ct = Ok c /\ no_rfc822 c /\ no_empty_multi c /\ body_structure d c = Some b
-    /\ In (p, n) (rfc_parts (bs_printed b)) /\ n <> length (fetch_body d c p).
+    parse d ct = Ok c /\ body_structure d c = Some b
+    /\ In (p, n) (rfc_parts b) /\ n <> length (fetch_body d c p).
 Proof.
   exists wit_hdr, (fun _ => CtText). eexists. eexists. exists [1], 6.
   split; [vm_compute; reflexivity|].
-  split; [constructor; [discriminate|constructor]|].
-  split; [constructor; [discriminate|constructor]|].
   split; [vm_compute; reflexivity|].
   split; [left; reflexivity|]. vm_compute. discriminate.
 Qed.
 
-(* "C:m\n\nx" with the header deciding multipart but no usable boundary: no
-   sub-part is parsed, an empty text part 1 (0 octets) is printed, BODY[1] is
-   the 1-octet body of the message itself *)
-Definition wit_empty_multi : bytes := [67; 58; 109; 10; 10; 120]%N.
-
-Lemma st_empty_multipart_refuted :
-  exists d ct c b p n,
-    parse d ct = Ok c /\ no_rfc822 c /\ body_structure d c = Some b
-    /\ In (p, n) (rfc_parts (bs_printed b))
-    /\ n <> length (fetch_mime d c p) + length (fetch_body d c p).
+(* ---- line counts: what is announced is the number of LF octets of the whole
+   message (header included), not the number of lines of BODY[1] *)
+Lemma st_lines_top d ct c :
+  parse d ct = Ok c -> lines_of c = Z.of_nat (count_lf d).
 Proof.
-  exists wit_empty_multi, (fun _ => CtMulti []). eexists. eexists. exists [1], 0.
-  split; [vm_compute; reflexivity|].
-  split; [constructor; [discriminate|constructor]|].
-  split; [vm_compute; reflexivity|].
-  split; [left; reflexivity|]. vm_compute. discriminate.
+  intro H. unfold lines_of. rewrite <- app_length, (parse_root d ct c H).
+  rewrite find_lines_length. unfold count_lf. lia.
 Qed.
+
+(* "a:b\n\nc\n": 3 lines announced for the text part 1, BODY[1] = "c\n" has 1 *)
+Definition wit_lines : bytes := [97; 58; 98; 10; 10; 99; 10]%N.
+
+Lemma st_lines_refuted :
+  exists d ct c n l,
+    parse d ct = Ok c /\ body_structure d c = Some (BsText n l)
+    /\ l <> Z.of_nat (count_lf (fetch_body d c [1])).
+Proof.
+  exists wit_lines, (fun _ => CtText). eexists. eexists. eexists.
+  split; [vm_compute; reflexivity|].
+  split; [vm_compute; reflexivity|]. vm_compute. discriminate.
+Qed.
+
+(* ---- RFC822 / RFC822.HEADER / RFC822.TEXT *)
+Lemma st_rfc822_aliases d ct c :
+  parse d ct = Ok c ->
+  fetch_rfc822 d c = d /\ fetch_rfc822_header d c = fetch_header d c []
+  /\ fetch_rfc822_text d c = fetch_text d c []
+  /\ fetch_rfc822_header d c ++ fetch_rfc822_text d c = d.
+Proof.
+  intro H. split; [apply fetch_body_full with ct; exact H|].
+  split; [reflexivity|]. split; [reflexivity|]. apply header_text_split with ct. exact H.
+Qed.
+
+(* ---- BINARY[..] / BINARY.SIZE[..] for identity encodings *)
+Lemma st_binary_full d ct identity c :
+  parse d ct = Ok c -> identity c = true ->
+  fetch_binary d identity c [] = Some d /\ binary_size d identity c [] = Some (length d).
+Proof.
+  intros H Hi. unfold binary_size, fetch_binary, get_subpart. cbn [walk]. rewrite Hi.
+  rewrite <- (wf_raw_split d c (parse_wf d ct c H)), (content_verbatim d ct c H).
+  split; reflexivity.
+Qed.
+
+Lemma st_binary_part d identity c p s :
+  p <> [] -> get_subpart c p = Some s -> identity s = true ->
+  fetch_binary d identity c p = Some (fetch_body d c p)
+  /\ binary_size d identity c p = Some (length (fetch_body d c p)).
+Proof.
+  intros Hp Hs Hi. unfold binary_size, fetch_binary, fetch_body. rewrite Hs, Hi.
+  destruct p; [congruence|]. split; reflexivity.
+Qed.
+
+Lemma read_print_literal8 (p rest : bytes) :
+  read_literal8 (print_literal8 p ++ rest) = Some (p, rest).
+Proof. unfold print_literal8, read_literal8. cbn [app]. apply read_print_literal. Qed.
 
 (* "C:m\n\nS:i\n\nx" with the outer header deciding message/rfc822: part 1 is
-   announced with 11 octets; BODY[1.MIME] ++ BODY[1] are the 6 octets of the
-   *enclosed* message, BODY[1] its 1-octet body *)
+   the enclosed message (6 octets), part 1.1 its body *)
 Definition wit_rfc : bytes := [67; 58; 109; 10; 10; 83; 58; 105; 10; 10; 120]%N.
 Definition wit_rfc_ct (hl : list line) : ctype :=
   match hl with
@@ -567,41 +577,31 @@ Definition wit_rfc_ct (hl : list line) : ctype :=
   | [] => CtText
   end.
 
-Lemma st_part_numbering_refuted :
-  exists d ct c b p n,
-    parse d ct = Ok c /\ no_empty_multi c /\ body_structure d c = Some b
-    /\ In (p, n) (rfc_parts (bs_printed b))
-    /\ n <> length (fetch_mime d c p) + length (fetch_body d c p).
+Lemma ex_rfc_ok :
+  exists c b, parse wit_rfc wit_rfc_ct = Ok c /\ body_structure wit_rfc c = Some b
+    /\ rfc_parts b = [([1], 11); ([1; 1], 6)]
+    /\ fetch_mime wit_rfc c [1] = [67; 58; 109; 10; 10]%N
+    /\ fetch_body wit_rfc c [1] = [83; 58; 105; 10; 10; 120]%N
+    /\ fetch_header wit_rfc c [1] = [83; 58; 105; 10; 10]%N
+    /\ fetch_text wit_rfc c [1] = [120]%N
+    /\ fetch_mime wit_rfc c [1; 1] = [83; 58; 105; 10; 10]%N
+    /\ fetch_body wit_rfc c [1; 1] = [120]%N.
 Proof.
-  exists wit_rfc, wit_rfc_ct. eexists. eexists. exists [1], 11.
+  eexists. eexists. split; [vm_compute; reflexivity|].
   split; [vm_compute; reflexivity|].
-  split; [repeat (constructor; try discriminate)|].
-  split; [vm_compute; reflexivity|].
-  split; [left; reflexivity|]. vm_compute. discriminate.
+  repeat split; vm_compute; reflexivity.
 Qed.
 
-Lemma st_maildir_verbatim (ser : bytes -> bytes) :
-  (forall x, ser x = x) ->
-  forall lit, md_load ser (md_append ser lit) = lit
-              /\ md_load ser (md_copy ser (md_append ser lit)) = lit
-              /\ md_load ser (md_move (md_append ser lit)) = lit.
+Lemma st_maildir_verbatim (rd : bytes -> bytes) :
+  (forall x, rd x = x) ->
+  forall lit, md_load rd (md_append lit) = lit
+              /\ md_load rd (md_copy rd (md_append lit)) = lit
+              /\ md_load rd (md_move (md_append lit)) = lit.
 Proof.
   intros H lit.
   split; [apply md_append_load; exact H|].
   split; [apply md_copy_load; exact H|apply md_move_load; exact H].
 Qed.
-
-(* a serialiser that rewrites CR LF to LF, as observed for stdlib mailbox *)
-Fixpoint crlf_to_lf (b : bytes) : bytes :=
-  match b with
-  | 13%N :: ((10%N :: _) as r) => crlf_to_lf r
-  | c :: r => c :: crlf_to_lf r
-  | [] => []
-  end.
-
-Lemma st_maildir_refuted :
-  exists ser lit, md_load ser (md_append ser lit) <> lit.
-Proof. exists crlf_to_lf, [97; 13; 10]%N. vm_compute. discriminate. Qed.
 
 (* the hypotheses of st_part_octets hold of non-trivial messages: a
    multipart/mixed with two parts, the second one without a header *)
@@ -614,7 +614,7 @@ Definition ex_multi_ct (hl : list line) : ctype :=
   end.
 
 Lemma ex_multi_ok :
-  exists c, parse ex_multi ex_multi_ct = Ok c /\ no_rfc822 c /\ no_empty_multi c
+  exists c, parse ex_multi ex_multi_ct = Ok c
             /\ body_structure ex_multi c = Some (BsMulti [BsText 8 2%Z; BsText 2 0%Z])
             /\ rfc_parts (BsMulti [BsText 8 2%Z; BsText 2 0%Z]) = [([1], 8); ([2], 2)]
             /\ fetch_body ex_multi c [1] = [104; 105; 10]%N
@@ -622,7 +622,5 @@ Lemma ex_multi_ok :
             /\ fetch_body ex_multi c [2] = [121; 10]%N.
 Proof.
   eexists. split; [vm_compute; reflexivity|].
-  split; [repeat (constructor; try discriminate)|].
-  split; [repeat (constructor; try discriminate)|].
   repeat split; vm_compute; reflexivity.
 Qed.
